@@ -20,6 +20,8 @@ pub enum AnyTarget {
     LogBox,
     /// `Σ ln(sqrt(x_i)) - rate·x_i` on x > 0: value *and* autodiff gradient are NaN outside the support
     SqrtGamma { rate: f64 },
+    /// standard normal whose log-density drops by `drop` outside the ball of squared radius `r2` (energy errors near the divergence bound)
+    Cliff { r2: f64, drop: f64 },
 }
 
 pub trait Sc: Float + Element + ElementConversion + std::fmt::Debug + num_traits::FloatConst + Send + Sync + 'static {
@@ -74,6 +76,7 @@ impl AnyTarget {
             AnyTarget::HalfLine { rate } => format!("halfline {}", h(*rate)),
             AnyTarget::LogBox => "logbox".into(),
             AnyTarget::SqrtGamma { rate } => format!("sqrtgamma {}", h(*rate)),
+            AnyTarget::Cliff { r2, drop } => format!("cliff {} {}", h(*r2), h(*drop)),
         }
     }
     pub fn name(&self) -> &'static str {
@@ -87,6 +90,7 @@ impl AnyTarget {
             AnyTarget::HalfLine { .. } => "halfline",
             AnyTarget::LogBox => "logbox",
             AnyTarget::SqrtGamma { .. } => "sqrtgamma",
+            AnyTarget::Cliff { .. } => "cliff",
         }
     }
     /// f64 reference log-density (the harness's own copy of the target, used to judge visited states)
@@ -116,6 +120,10 @@ impl AnyTarget {
             }
             AnyTarget::LogBox => x.iter().map(|t| t.ln() + (1.0 - t).ln()).sum::<f64>(),
             AnyTarget::SqrtGamma { rate } => x.iter().map(|t| t.sqrt().ln() - rate * t).sum::<f64>(),
+            AnyTarget::Cliff { r2, drop } => {
+                let q = x.iter().map(|t| t * t).sum::<f64>();
+                -0.5 * q - if q > *r2 { *drop } else { 0.0 }
+            }
         }
     }
     pub fn dim_fixed(&self) -> Option<usize> {
@@ -172,6 +180,13 @@ impl<T: Sc, B: AutodiffBackend> BatchedGradientTarget<T, B> for AnyTarget {
                 (positions.log() + one_minus.log()).sum_dim(1).squeeze::<1>(1)
             }
             AnyTarget::SqrtGamma { rate } => (positions.clone().sqrt().log() - positions.mul_scalar(T::from64(*rate))).sum_dim(1).squeeze::<1>(1),
+            AnyTarget::Cliff { r2, drop } => {
+                let q = (positions.clone() * positions).sum_dim(1);
+                let outside = q.clone().greater_elem(T::from64(*r2));
+                let base = q.mul_scalar(T::from64(-0.5));
+                let dropped = base.clone().sub_scalar(T::from64(*drop));
+                base.mask_where(outside, dropped).squeeze::<1>(1)
+            }
         }
     }
 }
@@ -223,6 +238,7 @@ pub fn random_target(rng: &mut Sm, family: u64, dim: usize) -> (AnyTarget, usize
         4 => (AnyTarget::Student { nu: rng.uniform(1.0, 8.0) }, dim),
         5 => (AnyTarget::Quartic, dim),
         6 => (AnyTarget::HalfLine { rate: rng.uniform(0.5, 3.0) }, dim),
+        8 => (AnyTarget::Cliff { r2: rng.uniform(1.0, 9.0), drop: 1000.0 + rng.uniform(0.02, 2.5) }, dim),
         _ => (AnyTarget::LogBox, dim),
     }
 }
